@@ -56,7 +56,7 @@ def meta(tier):
                 'third a constant), automatic #endif closers and an observation suffix (#ifdef probes for SA/SB/SM, a byte '
                 'that shows the mute state, references to every label/constant a marker defined, a zone probe); '
                 'non-trivial = history with >=1 conditional directive whose reference selection both excludes and includes '
-                'at least one marker; plus the comparison product: every pair of 17 operand spellings (incl. negative values and blanks between tokens) (decimal, hex, binary, expressions, '
+                'at least one marker; plus the comparison product: every pair of 20 operand spellings (incl. quotients that are not whole numbers) (incl. negative values and blanks between tokens) (decimal, hex, binary, expressions, '
                 'symbols) x 6 operators, and every operand as a bare condition; plus every condition (8 x 8 numeric spellings and symbol-vs-quoted-text comparisons, 6 operators) stated by #if, by #elif after #if 0, and by a second #elif: same selection under all three, and for == / != between texts the selection itself; states = distinct canonical reference states (symbols, zones, cursors, mute, labels)',
         'bounds': {'alphabet': [R.render_stmt(s) for s in SIGMA], 'core_alphabet': [R.render_stmt(s) for s in SIGMA_CORE_Q],
                    'depth_full_alphabet': 4 if q else 5, 'depth_core_alphabet': 5 if q else 6,
@@ -236,7 +236,8 @@ def shard(acc, tier, idx, n):
 
 CMP_OPERANDS = [('9', 9), ('10', 10), ('$0A', 10), ('0x0a', 10), ('1+1', 2), ('2', 2), ('SA', 1), ('SN', 12), ('0', 0), ('(3-3)', 0), ('b11', 3),
                 ('SM', -3), ('(1-4)', -3), ('SA-2', -1),
-                ('SA + 1', 2), ('2 * 5', 10), ('SN - 3 + 1', 10)]          # blanks between the tokens of an operand
+                ('SA + 1', 2), ('2 * 5', 10), ('SN - 3 + 1', 10),          # blanks between the tokens of an operand
+                ('7/2', 3), ('1/2', 0), ('SN/5', 2)]                      # conditions compare integers: a quotient is truncated like everywhere else
 CMP_OPS = {'==': lambda a, b: a == b, '!=': lambda a, b: a != b, '>': lambda a, b: a > b, '>=': lambda a, b: a >= b,
            '<': lambda a, b: a < b, '<=': lambda a, b: a <= b}
 
